@@ -115,10 +115,11 @@ Section Read.
         end
     end.
 
-  Fixpoint list_blocks_r (subs : list N) (k : bool -> prog rres) : prog rres :=
+  Fixpoint list_blocks_r (subs : list N) (ok : bool) (k : bool -> prog rres) : prog rres :=
     match subs with
-    | [] => k true
-    | s :: subs' => Do (OpList (DBlockSub s)) (fun r => match r with RList _ _ => list_blocks_r subs' k | _ => k false end)
+    | [] => k ok
+    | s :: subs' =>
+        Do (OpList (DBlockSub s)) (fun r => match r with RList _ _ => list_blocks_r subs' ok k | _ => list_blocks_r subs' false k end)
     end.
 
   (* The stitched listing is read lazily in the Rust code, interleaved with block reads;
@@ -135,7 +136,7 @@ Section Read.
                 Do (OpList DBlocks) (fun r1 =>
                   match r1 with
                   | RList ds _ =>
-                      list_blocks_r (block_subdirs ds) (fun ok =>
+                      list_blocks_r (block_subdirs ds) true (fun ok =>
                         if ok then
                           bind (snext keep (fun _ => true) (SBefore (N.to_nat b)) None 0) (fun r =>
                             let '(es, _, _, _, merr) := r in restore_entries es [] [] merr)
@@ -192,15 +193,15 @@ Section Read.
           end)
     end.
 
-  Fixpoint list_blocks_v (subs : list N) (acc : list bytes) (k : option (list bytes) -> prog vres) : prog vres :=
+  Fixpoint list_blocks_v (subs : list N) (acc : list bytes) (failed : bool) (k : option (list bytes) -> prog vres) : prog vres :=
     match subs with
-    | [] => k (Some acc)
+    | [] => k (if failed then None else Some acc)
     | s :: subs' =>
         Do (OpList (DBlockSub s)) (fun r =>
           match r with
           | RList _ fs =>
-              list_blocks_v subs' (acc ++ flat_map (fun p => match p with (PBlock c, true) => [c] | _ => [] end) fs) k
-          | _ => k None
+              list_blocks_v subs' (acc ++ flat_map (fun p => match p with (PBlock c, true) => [c] | _ => [] end) fs) failed k
+          | _ => list_blocks_v subs' acc true k
           end)
     end.
 
@@ -233,7 +234,7 @@ Section Read.
                         Do (OpList DBlocks) (fun r3 =>
                           match r3 with
                           | RList ds3 _ =>
-                              list_blocks_v (block_subdirs ds3) [] (fun o =>
+                              list_blocks_v (block_subdirs ds3) [] false (fun o =>
                                 match o with
                                 | None => Ret {| v_ok := false; v_errors := errs |}
                                 | Some present0 =>
